@@ -4,6 +4,7 @@
     counts below [alloc_cap], header sizes) are re-checked by computation
     against the constants regenerated from the repository (Gen/Consts.v). *)
 From Coq Require Import ZArith List Bool Lia.
+From Coq Require Import Strings.Byte.
 From VB Require Import Gen.Consts Serde.StreamDefs Serde.CodecSpec Serde.StreamLemmas Serde.StreamProofs Serde.EntityDefs.
 Import ListNotations.
 Local Open Scope Z_scope.
@@ -101,19 +102,47 @@ Proof.
   apply c_pair_ok; [apply c_ctxinfo_ok|apply c_bytes_ok; vm_compute; discriminate].
 Qed.
 
-Section EntityProofs.
-  Variable addr_ok : Z -> list byte -> bool.
+Lemma bytes_eqb_refl a : bytes_eqb a a = true.
+Proof. induction a as [|x a IH]; cbn [bytes_eqb]; [reflexivity|]. rewrite Byte.byte_dec_lb by reflexivity. exact IH. Qed.
+Lemma bytes_eqb_eq a : forall b, bytes_eqb a b = true -> a = b.
+Proof.
+  induction a as [|x a IH]; intros [|y b] H; cbn [bytes_eqb] in H; try discriminate; [reflexivity|].
+  apply andb_true_iff in H. destruct H as [H1 H2]. apply Byte.byte_dec_bl in H1. apply IH in H2. congruence.
+Qed.
 
-  Lemma c_address_ok : codec_ok (c_address addr_ok).
+Section EntityProofs.
+  Variable addr_norm : Z -> list byte -> option (Z * list byte).
+  Hypothesis Hnorm : addr_norm_sound addr_norm.
+
+  Lemma c_address_ok : codec_ok (c_address addr_norm).
   Proof.
-    unfold c_address. apply c_iso_ok; [intros []; reflexivity|intros []; reflexivity|].
-    apply c_refine_ok. apply c_pair_ok; [apply c_be_ok; cbn; lia|apply c_sbl_ok].
+    split.
+    - intros [ty b] r Hw _. cbn [c_address enc dec wfd addr_type addr_bytes] in *.
+      destruct (addr_norm ty b) as [[t' b']|] eqn:E; [|discriminate].
+      apply andb_true_iff in Hw. destruct Hw as [Ht Hb]. apply Z.eqb_eq in Ht. apply bytes_eqb_eq in Hb. subst t' b'.
+      destruct (Hnorm _ _ _ _ E) as (Hr & Hl & _).
+      rewrite <- app_assoc. rewrite <- (len_write_be 1 ty) at 1 by lia. rewrite read_be_app. cbn [bind].
+      unfold write_sbl. cbn [app]. pose proof (len_nonneg b).
+      rewrite read_sbl_enc by (unfold VBK_ADDRESS_SIZE in *; lia). cbn [bind].
+      rewrite be_val_write_be by lia. change (2 ^ (8 * 1)) with 256. rewrite Z.mod_small by lia.
+      unfold wrap_t. cbn [ibytes isigned U8]. rewrite wrap_unsigned by (change (2 ^ (8 * 1)) with 256; lia).
+      rewrite E. reflexivity.
+    - intros bs a r H. cbn [c_address dec wfd] in *.
+      destruct (read_be U8 1 bs) as [ty r1| | |]; cbn [bind] in H; try discriminate.
+      destruct (read_sbl 0 VBK_ADDRESS_SIZE r1) as [b r2| | |]; cbn [bind] in H; try discriminate.
+      destruct (addr_norm ty b) as [[t' b']|] eqn:E; [|discriminate]. inversion H; subst. cbn [addr_type addr_bytes].
+      destruct (Hnorm _ _ _ _ E) as (_ & _ & Hi). rewrite Hi. rewrite Z.eqb_refl, bytes_eqb_refl. reflexivity.
+    - intros [ty b] Hw _. cbn [c_address esize enc wfd addr_type addr_bytes] in *.
+      rewrite len_app, len_write_be by lia. unfold write_sbl, sbl_size. rewrite len_cons. reflexivity.
+    - intros bs. cbn [c_address dec]. apply safe_bind; [apply read_be_safe|]. intros ty r _.
+      apply safe_bind; [apply read_sbl_safe|]. intros b r' _.
+      destruct (addr_norm ty b) as [[t' b']|]; [apply safe_value|exact I].
   Qed.
 
   Lemma c_coin_ok : codec_ok c_coin.
   Proof. exact c_single_be64_ok. Qed.
 
-  Lemma c_output_ok : codec_ok (c_output addr_ok).
+  Lemma c_output_ok : codec_ok (c_output addr_norm).
   Proof.
     unfold c_output. apply c_iso_ok; [intros []; reflexivity|intros []; reflexivity|].
     apply c_pair_ok; [apply c_address_ok|apply c_coin_ok].
@@ -172,7 +201,7 @@ Section EntityProofs.
     repeat apply c_pair_ok; try apply c_single_be64_ok; apply c_var_len_ok; vm_compute; reflexivity.
   Qed.
 
-  Lemma c_vbktx_raw_ok : codec_ok (c_vbktx_raw addr_ok).
+  Lemma c_vbktx_raw_ok : codec_ok (c_vbktx_raw addr_norm).
   Proof.
     unfold c_vbktx_raw. repeat apply c_pair_ok.
     - apply c_network_byte_ok. vm_compute. intuition congruence.
@@ -187,14 +216,14 @@ Section EntityProofs.
     - apply nested_var_ok; [vm_compute; reflexivity|apply c_pubdata_ok].
   Qed.
 
-  Lemma c_vbktx_ok : codec_ok (c_vbktx addr_ok).
+  Lemma c_vbktx_ok : codec_ok (c_vbktx addr_norm).
   Proof.
     unfold c_vbktx. apply c_iso_ok; [intros []; reflexivity|iso_tac|].
     repeat apply c_pair_ok; try apply c_sbl_ok.
     apply nested_var_ok; [vm_compute; reflexivity|apply c_vbktx_raw_ok].
   Qed.
 
-  Lemma c_vbkpoptx_raw_ok : codec_ok (c_vbkpoptx_raw addr_ok).
+  Lemma c_vbkpoptx_raw_ok : codec_ok (c_vbkpoptx_raw addr_norm).
   Proof.
     unfold c_vbkpoptx_raw. repeat apply c_pair_ok.
     - apply c_network_byte_ok. vm_compute. intuition congruence.
@@ -206,26 +235,26 @@ Section EntityProofs.
     - apply counted_ok; [vm_compute; discriminate|apply c_btcblock_ok].
   Qed.
 
-  Lemma c_vbkpoptx_ok : codec_ok (c_vbkpoptx addr_ok).
+  Lemma c_vbkpoptx_ok : codec_ok (c_vbkpoptx addr_norm).
   Proof.
     unfold c_vbkpoptx. apply c_iso_ok; [intros []; reflexivity|iso_tac|].
     repeat apply c_pair_ok; try apply c_sbl_ok.
     apply nested_var_ok; [vm_compute; reflexivity|apply c_vbkpoptx_raw_ok].
   Qed.
 
-  Lemma c_atv_ok : codec_ok (c_atv addr_ok).
+  Lemma c_atv_ok : codec_ok (c_atv addr_norm).
   Proof.
     unfold c_atv. apply c_iso_ok; [intros []; reflexivity|iso_tac|].
     repeat apply c_pair_ok; [apply c_version1_ok|apply c_vbktx_ok|apply c_vbkmerklepath_ok|apply c_vbkblock_ok].
   Qed.
 
-  Lemma c_vtb_ok : codec_ok (c_vtb addr_ok).
+  Lemma c_vtb_ok : codec_ok (c_vtb addr_norm).
   Proof.
     unfold c_vtb. apply c_iso_ok; [intros []; reflexivity|iso_tac|].
     repeat apply c_pair_ok; [apply c_version1_ok|apply c_vbkpoptx_ok|apply c_vbkmerklepath_ok|apply c_vbkblock_ok].
   Qed.
 
-  Lemma c_popdata_ok : codec_ok (c_popdata addr_ok).
+  Lemma c_popdata_ok : codec_ok (c_popdata addr_norm).
   Proof.
     unfold c_popdata. apply c_iso_ok; [intros []; reflexivity|iso_tac|].
     repeat apply c_pair_ok; [apply c_version1_ok| | |];
